@@ -96,10 +96,36 @@ def exc_signature(e, tb_text=None):
 
 
 # ---------------------------------------------------------------- shrinking
+def render_placed(prog, place, ns):
+    """Definitions spread over the namespace ns and the default namespace
+    (place: workflow name -> 'ns' | 'default' | 'both'; the first workflow
+    is always in ns)."""
+    wfs = prog['workflows']
+    in_ns = [wfs[0]] + [w for w in wfs[1:]
+                        if place.get(w['name'], 'ns') in ('ns', 'both')]
+    in_def = [w for w in wfs[1:]
+              if place.get(w['name'], 'ns') in ('default', 'both')]
+    defs = gen.render_program({'workflows': in_ns, 'workbook': None})
+    defs['namespace'] = ns
+    if in_def:
+        defs['groups'] = [{
+            'namespace': '',
+            'workflows': gen.render_program(
+                {'workflows': in_def, 'workbook': None})['workflows']}]
+    return defs
+
+
 def _rerender(case, prog):
     c = dict(case)
     c['prog'] = prog
-    c['defs'] = gen.render_program(prog)
+    old = case.get('defs') or {}
+    if case.get('def_place'):
+        c['defs'] = render_placed(prog, case['def_place'],
+                                  old.get('namespace', ''))
+    else:
+        c['defs'] = gen.render_program(prog)
+        if 'namespace' in old:
+            c['defs']['namespace'] = old['namespace']
     return c
 
 
@@ -363,5 +389,5 @@ def avoid_known(case, rng, p_keep=0.08):
                     t.pop('concurrency', None)
                     changed = True
     if changed:
-        case['defs'] = gen.render_program(prog)
+        case['defs'] = _rerender(case, prog)['defs']
     return case
